@@ -89,6 +89,10 @@ def run(ctx):
             continue
         smtlib.collect_information(exprs)
         typed = collect_typed(cmds)
+        lk = [[w_str(str(k)), [] if v is None else [w_shape(impl.to_shape(v))]] for k, v in getattr(smtlib, '__sort_lookup').items()]
+        dtc = [[w_str(str(k)), w_shape(impl.to_shape(v))] for k, v in getattr(smtlib, '__datatypes_constructors').items()
+               if hasattr(v, 'is_leaf')]
+        index_ids = getattr(smtlib, '__indices')
         expected_by_id = {}
         # the multi-datatype declaration is outside decl_env's single-datatype fragment: skip the oracle for it
         has_dts = any(isinstance(s, tuple) and s and s[0] == 'declare-datatypes' for s in shapes)
@@ -117,6 +121,11 @@ def run(ctx):
             if bw != -1 and bw != wantw:
                 ctx.violation('impl-violation', input=text, term=smtgen.render_shape(t.shape()), path=list(path),
                               observed=f'get_bv_width = {bw}', expected=f'-1 (unknown) or {wantw}' if wantw != -1 else '-1: the term is not a bit-vector')
+            if True:
+                calls.append((51, [lk, dtc, int(node.id in index_ids), w_shape(t.shape())]))
+                meta.append(('model-sort', text, t, got_s))
+                calls.append((52, [lk, dtc, w_shape(t.shape())]))
+                meta.append(('model-width', text, t, bw))
             if not has_dts and len(path) == 2:
                 calls.append((50, [w_shapes(shapes), [[w_str(n), w_shape(s)] for n, s in scope], w_shape(t.shape())]))
                 meta.append(('generator', text, t, want))
@@ -147,7 +156,16 @@ def run(ctx):
             meta.append(('replacement', text, (p['cls'], str(p['node']), smtgen.render_shape(vshape)), want))
     res = model.batch(calls)
     for (kind, text, info, want), got in zip(meta, res):
+        if kind == 'model-width':
+            if got != want:
+                ctx.disagree('get_bv_width', input=smtgen.render_shape(info.shape())[:400], impl=want, model=got)
+            continue
         got_s = None if got == [] else r_shape(got[0])
+        if kind == 'model-sort':
+            if got_s != want:
+                ctx.disagree('get_sort', input=smtgen.render_shape(info.shape())[:400], impl=None if want is None else smtgen.render_shape(want),
+                             model=None if got_s is None else smtgen.render_shape(got_s))
+            continue
         if kind == 'generator':
             if got_s != want:
                 ctx.disagree('typed generator vs Spec/Typing.type_of', input=smtgen.render_shape(info.shape())[:400],
